@@ -60,6 +60,14 @@ type E struct {
 	T   time.Time
 	Big [140]uint64 // larger than the 1024-byte zero block unsafeCmpZero compares against
 	BS  bigS
+	// larger than two and than three of those blocks: a chunked comparison must reach the last one
+	Huge [420]uint64
+	HS   hugeS
+}
+
+type hugeS struct {
+	A    [300]uint64
+	Last int64
 }
 
 type bigS struct {
@@ -190,6 +198,26 @@ func fill(r *vh.Rng, e *E) {
 	default:
 		e.Big[0] = 1
 		e.BS.A[0] = 1
+	}
+	e.Huge = [420]uint64{}
+	e.HS = hugeS{}
+	switch r.Intn(6) {
+	case 0:
+	case 1:
+		e.Huge[419] = 9 // only the last word: byte offset 3352
+		e.HS.Last = 3 // byte offset 2400
+	case 2:
+		e.Huge[263] = 1 // byte offset 2104: just inside the third block
+		e.HS.A[299] = 1
+	case 3:
+		e.Huge[140] = 1 // second block
+		e.HS.A[130] = 1
+	case 4:
+		e.Huge[0] = 1
+		e.HS.A[0] = 1
+	default:
+		e.Huge[255], e.Huge[256], e.Huge[384] = 1, 1, 1 // block boundaries (2040, 2048, 3072)
+		e.HS.A[256] = 1
 	}
 	switch r.Intn(4) {
 	case 0:
